@@ -183,6 +183,13 @@ class TupleSeq:
         return self.length
 
 
+class ZipV:
+    """zip(A, B, ...) with at least one operand of symbolic length: only usable as the iterable of a comprehension"""
+
+    def __init__(self, seqs):
+        self.seqs = list(seqs)
+
+
 class SetV:
     def __init__(self, arr):
         self.arr = arr  # Array Key -> Bool
